@@ -1,0 +1,208 @@
+//! Verification hook H2 (`--cfg actix_net_verif` only): harness-owned worker ends built from the
+//! real `handle_pair` / `Counter` / `WorkerCounter`, and an in-thread `ServerWorker` constructor
+//! (the body of `ServerWorker::start` without thread / arbiter creation).
+
+#![allow(missing_docs, missing_debug_implementations)]
+
+use std::{
+    future::Future,
+    pin::Pin,
+    task::{Context, Poll},
+    time::Duration,
+};
+
+use tokio::sync::{mpsc::unbounded_channel, oneshot};
+
+use super::*;
+use crate::{
+    service::{InternalServiceFactory, ServerServiceFactory, StreamNewService},
+    socket::FromStream,
+};
+
+/// Clonable handle on the real waker queue of a stepped accept loop.
+#[derive(Clone)]
+pub struct WakerQueueV(pub(crate) WakerQueue);
+
+/// What `ServerInner::handle_cmd` / a worker pushes on the waker queue.
+pub enum Interest {
+    Pause,
+    Resume,
+    Stop,
+    WorkerAvailable(usize),
+    Worker(HandleAccept),
+}
+
+impl WakerQueueV {
+    pub fn wake(&self, interest: Interest) {
+        self.0.wake(match interest {
+            Interest::Pause => WakerInterest::Pause,
+            Interest::Resume => WakerInterest::Resume,
+            Interest::Stop => WakerInterest::Stop,
+            Interest::WorkerAvailable(idx) => WakerInterest::WorkerAvailable(idx),
+            Interest::Worker(h) => WakerInterest::Worker(h.0),
+        })
+    }
+
+    pub fn len(&self) -> usize {
+        self.0.guard().len()
+    }
+
+    pub fn is_empty(&self) -> bool {
+        self.len() == 0
+    }
+}
+
+/// Accept-side worker handle (opaque).
+pub struct HandleAccept(pub(crate) WorkerHandleAccept);
+
+impl HandleAccept {
+    pub fn idx(&self) -> usize {
+        self.0.idx()
+    }
+}
+
+/// Server-side worker handle (opaque).
+pub struct HandleServer(pub(crate) WorkerHandleServer);
+
+impl HandleServer {
+    pub fn stop(&self, graceful: bool) -> oneshot::Receiver<bool> {
+        self.0.stop(graceful)
+    }
+}
+
+/// The real guard that travels with a connection; dropping it runs `Counter::dec` and the wake-up.
+pub struct Guard(#[allow(dead_code)] WorkerCounterGuard);
+
+/// A connection as a worker receives it.
+pub struct Picked {
+    pub token: usize,
+    pub io: MioStream,
+    pub guard: Guard,
+}
+
+/// The worker side of a handle pair, owned by the harness.
+pub struct WorkerEnd {
+    pub idx: usize,
+    conn_rx: UnboundedReceiver<Conn>,
+    counter: WorkerCounter,
+}
+
+/// Build a worker whose receiving end is owned by the caller.
+pub fn fake_worker(idx: usize, limit: usize, waker_queue: &WakerQueueV) -> (HandleAccept, WorkerEnd) {
+    let (tx1, conn_rx) = unbounded_channel();
+    let (tx2, _stop_rx) = unbounded_channel();
+    let counter = Counter::new(limit);
+    let (accept, _server) = handle_pair(idx, tx1, tx2, counter.clone());
+    let end = WorkerEnd {
+        idx,
+        conn_rx,
+        counter: WorkerCounter::new(idx, waker_queue.0.clone(), counter),
+    };
+    (HandleAccept(accept), end)
+}
+
+impl WorkerEnd {
+    /// Receive one queued connection the way `ServerWorker` does: take it off the channel and
+    /// create the guard.
+    pub fn try_pickup(&mut self) -> Option<Picked> {
+        match self.conn_rx.try_recv() {
+            Ok(conn) => Some(Picked {
+                token: conn.token,
+                io: conn.io,
+                guard: Guard(self.counter.guard()),
+            }),
+            Err(_) => None,
+        }
+    }
+
+    /// connections in progress according to the shared atomic counter (diagnostics only)
+    pub fn counter_total(&self) -> usize {
+        self.counter.total()
+    }
+}
+
+/// Worker configuration.
+#[derive(Clone, Copy)]
+pub struct WorkerConfigV(ServerWorkerConfig);
+
+pub fn worker_config(shutdown_timeout: Duration, max_concurrent_connections: usize) -> WorkerConfigV {
+    let mut cfg = ServerWorkerConfig::default();
+    cfg.shutdown_timeout(shutdown_timeout);
+    cfg.max_concurrent_connections(max_concurrent_connections);
+    WorkerConfigV(cfg)
+}
+
+/// A service factory as `ServerBuilder::bind`/`listen` registers it for listener `token`.
+pub struct Factory(pub(crate) Box<dyn InternalServiceFactory>);
+
+pub fn stream_factory<F, Io>(name: &str, token: usize, factory: F) -> Factory
+where
+    F: ServerServiceFactory<Io>,
+    Io: FromStream + Send + 'static,
+{
+    Factory(StreamNewService::create(
+        name.to_owned(),
+        token,
+        factory,
+        "127.0.0.1:0".parse().unwrap(),
+    ))
+}
+
+impl Factory {
+    pub fn clone_factory(&self) -> Factory {
+        Factory(self.0.clone_factory())
+    }
+}
+
+/// The real `ServerWorker` future, to be polled by the caller on the current thread (inside a
+/// `LocalSet`, because services `spawn` connection tasks).
+pub struct WorkerFut(ServerWorker);
+
+impl Future for WorkerFut {
+    type Output = ();
+
+    fn poll(mut self: Pin<&mut Self>, cx: &mut Context<'_>) -> Poll<()> {
+        Pin::new(&mut self.0).poll(cx)
+    }
+}
+
+impl WorkerFut {
+    pub fn counter_total(&self) -> usize {
+        self.0.counter.total()
+    }
+}
+
+/// The body of `ServerWorker::start` minus thread/arbiter creation: create the services from the
+/// factories, wrap them, build the worker.
+pub async fn in_thread_worker(
+    idx: usize,
+    factories: Vec<Factory>,
+    waker_queue: &WakerQueueV,
+    config: WorkerConfigV,
+) -> Result<(HandleAccept, HandleServer, WorkerFut), ()> {
+    let config = config.0;
+    let factories: Vec<Box<dyn InternalServiceFactory>> = factories.into_iter().map(|f| f.0).collect();
+    let (tx1, conn_rx) = unbounded_channel();
+    let (tx2, stop_rx) = unbounded_channel();
+    let counter = Counter::new(config.max_concurrent_connections);
+    let (accept, server) = handle_pair(idx, tx1, tx2, counter.clone());
+
+    let mut services = Vec::new();
+    for (idx, factory) in factories.iter().enumerate() {
+        let (token, svc) = factory.create().await?;
+        services.push((idx, token, svc));
+    }
+    let worker_services = wrap_worker_services(services);
+
+    let worker = ServerWorker {
+        conn_rx,
+        stop_rx,
+        services: worker_services.into_boxed_slice(),
+        counter: WorkerCounter::new(idx, waker_queue.0.clone(), counter),
+        factories: factories.into_boxed_slice(),
+        state: WorkerState::default(),
+        shutdown_timeout: config.shutdown_timeout,
+    };
+
+    Ok((HandleAccept(accept), HandleServer(server), WorkerFut(worker)))
+}
